@@ -19,6 +19,7 @@ DRIVER = r'''
 #include <stdio.h>
 static unsigned char *OUTB; static size_t OUTN, OUTCAP; static int FLUSH_EACH;
 static void outb(const void *p, size_t n){
+  if (!n) return;
   if (OUTN + n > OUTCAP){ OUTCAP = (OUTCAP + n) * 2 + 4096; OUTB = realloc(OUTB, OUTCAP); }
   memcpy(OUTB + OUTN, p, n); OUTN += n;
 }
@@ -29,11 +30,111 @@ static void flushout(void){ if (OUTN){ fwrite(OUTB, 1, OUTN, stdout); fflush(std
 static const unsigned char *CUR_BASE; static const uint8_t **CUR_PP; static int CUR_OFF0;
 static PSTATE_T *ST;
 static void snap(void);
+static int NORM; static void snapn(void);
 static void hook_record(int idx, uint8_t inval){
   out8('H'); out8(idx); out8(inval);
   out32(CUR_PP ? (int)(*CUR_PP - CUR_BASE) + CUR_OFF0 : -1);
-  snap();
+  if (NORM) snapn(); else snap();
   if (FLUSH_EACH) flushout();
+}
+static int inv(void);
+static void exhaust(int digest, int L, int nr, const unsigned char *reps, int do_end);
+static void witness(const unsigned char *str, int n, int do_end);
+/* ---- exhaustive chunk-schedule exploration inside C ---- */
+static long NFEED, NSCHED, NSTR, NDIFF, NINV;
+static void run_one(const unsigned char *s, int n, unsigned mask, int do_end){
+  shim_release(); memset(ST, 0, sizeof(PSTATE_T)); install_hooks();
+  CUR_PP = NULL; int r = PSTART(ST); install_hooks(); out8('S'); out8(r);
+  int a = 0, term = (r != 0);
+  while (!term && a < n){
+    int b = a + 1; while (b < n && !(mask & (1u << (b - 1)))) b++;
+    unsigned char *buf = malloc(b - a); memcpy(buf, s + a, b - a);
+    const uint8_t *p = buf; int guard = 0;
+    for (;;){
+      CUR_BASE = buf; CUR_OFF0 = a; NFEED++;
+      int cur;
+#if INDIRECT
+      CUR_PP = &p; r = PFEED(&p, buf + (b - a), ST); CUR_PP = NULL; cur = a + (int)(p - buf);
+#else
+      r = PFEED(p, buf + (b - a), ST); cur = -1;
+#endif
+      { int iv = inv(); if (iv){ out8('V'); out8(iv); NINV++; } }
+      if (r == 0) break;
+      if (r >= FIRST_YIELD){
+        out8('Y'); out8(r); out32(cur);
+        if (++guard > 4 * (b - a) + 8){ out8('L'); term = 1; break; }
+        if (cur >= 0 && cur < b) continue;
+        break;
+      }
+      out8('T'); out8(r); out32(cur); term = 1; break;
+    }
+    free(buf); a = b;
+  }
+#if EOFS
+  if (!term && do_end){ CUR_PP = NULL; r = PEND(ST); out8('E'); out8(r); { int iv = inv(); if (iv){ out8('V'); out8(iv); NINV++; } } }
+#endif
+  out8('N'); out32(0); snapn();
+}
+static unsigned long long fnv(const unsigned char *p, size_t n){ unsigned long long h = 1469598103934665603ULL; for (size_t i = 0; i < n; i++){ h ^= p[i]; h *= 1099511628211ULL; } return h; }
+static void exhaust(int digest, int L, int nr, const unsigned char *reps, int do_end){
+  unsigned char s[16]; int idx[16];
+  unsigned char *save = OUTB; size_t saven = OUTN, savecap = OUTCAP;
+  unsigned char *refb = NULL; size_t refn = 0, refcap = 0;
+  NORM = 1;
+  NFEED = NSCHED = NSTR = NDIFF = NINV = 0;
+  unsigned char *res = NULL; size_t resn = 0, rescap = 0;
+  for (int n = 0; n <= L; n++){
+    for (int i = 0; i < n; i++) idx[i] = 0;
+    for (;;){
+      for (int i = 0; i < n; i++) s[i] = reps[idx[i]];
+      NSTR++;
+      /* reference: one chunk */
+      OUTB = refb; OUTN = 0; OUTCAP = refcap; run_one(s, n, 0, do_end); refb = OUTB; refn = OUTN; refcap = OUTCAP; NSCHED++;
+      if (digest){
+        unsigned long long h = fnv(refb, refn);
+        if (resn + 8 > rescap){ rescap = rescap * 2 + 4096; res = realloc(res, rescap); }
+        memcpy(res + resn, &h, 8); resn += 8;
+      } else {
+        unsigned nmask = n > 1 ? (1u << (n - 1)) : 1;
+        for (unsigned mask = 1; mask < nmask; mask++){
+          OUTB = NULL; OUTN = 0; OUTCAP = 0; run_one(s, n, mask, do_end); NSCHED++;
+          if (OUTN != refn || memcmp(OUTB, refb, refn)){
+            NDIFF++;
+            if (NDIFF <= 3){
+              unsigned char *tb = OUTB; size_t tn = OUTN;
+              OUTB = res; OUTN = resn; OUTCAP = rescap;
+              out8('D'); out8(n); outb(s, n); out32((int)mask); out32((int)refn); outb(refb, refn); out32((int)tn); outb(tb, tn);
+              res = OUTB; resn = OUTN; rescap = OUTCAP;
+              OUTB = tb;
+            }
+          }
+          free(OUTB);
+        }
+      }
+      int k = n - 1; while (k >= 0 && ++idx[k] == nr){ idx[k] = 0; k--; }
+      if (k < 0) break;
+    }
+  }
+  NORM = 0;
+  OUTB = save; OUTN = saven; OUTCAP = savecap;
+  out8(digest ? 'G' : 'X'); out64(NSTR); out64(NSCHED); out64(NFEED); out64(NDIFF); out64(NINV);
+  out32((int)resn); outb(res, resn);
+  free(res); free(refb);
+}
+static void witness(const unsigned char *str, int n, int do_end){
+  /* one explicit (longer) input: one chunk vs every single cut point vs all-ones */
+  unsigned char *save = OUTB; size_t saven = OUTN, savecap = OUTCAP;
+  NORM = 1; long nd = 0, ns = 0; unsigned badmask = 0;
+  OUTB = NULL; OUTN = 0; OUTCAP = 0; run_one(str, n, 0, do_end); unsigned char *refb = OUTB; size_t refn = OUTN; ns++;
+  for (int k = 0; k <= n - 1 && n > 1; k++){
+    unsigned mask = (k == n - 1) ? ((n - 1 >= 31) ? 0x7fffffffu : ((1u << (n - 1)) - 1)) : (1u << k);
+    OUTB = NULL; OUTN = 0; OUTCAP = 0; run_one(str, n, mask, do_end); ns++;
+    if (OUTN != refn || memcmp(OUTB, refb, refn)){ if (!nd) badmask = mask; nd++; }
+    free(OUTB);
+  }
+  NORM = 0; free(refb);
+  OUTB = save; OUTN = saven; OUTCAP = savecap;
+  out8('W'); out64(ns); out64(nd); out32((int)badmask);
 }
 static unsigned char *IN; static size_t INN, INP;
 static unsigned rd8(void){ return IN[INP++]; }
@@ -76,6 +177,15 @@ int main(int argc, char **argv){
     } break;
     case 'N': out8('N'); out32((int)ST->state); snap(); break;
     case 'R': shim_free(); out8('R'); break;
+    case 'X': case 'G': {
+      int L = rd8(), nr = rd8(); unsigned char reps[32]; for (int i = 0; i < nr; i++) reps[i] = rd8();
+      int do_end = rd8();
+      exhaust(op == 'G', L, nr, reps, do_end);
+    } break;
+    case 'W': {
+      int n = rd8(); int do_end = rd8(); const unsigned char *str = IN + INP; INP += n;
+      witness(str, n, do_end);
+    } break;
     default: fprintf(stderr, "bad op %u at %zu\n", op, INP); return 3;
     }
     if (FLUSH_EACH) flushout();
@@ -88,7 +198,7 @@ int main(int argc, char **argv){
 '''
 
 
-def gen_shim(acc):
+def gen_shim(acc, sentinels=None):
     name = acc.name
     d = acc.dctx
     spec = d.state_object_spec
@@ -102,6 +212,7 @@ def gen_shim(acc):
     o.append('#include "%s.h"\n#include <string.h>\n#include <stdlib.h>' % name)
     o.append("#define PSTATE_T %s_state_t\n#define PSTART %s_start\n#define PFEED %s_feed\n#define PEND %s_end" % ((name,) * 4))
     o.append("#define INDIRECT %d\n#define EOFS %d" % (int(indirect), int(eof)))
+    o.append("#define FIRST_YIELD %d" % (3 + len(d.finish_codes)))
     o.append("static void hook_record(int idx, uint8_t inval);")
     for i, h in enumerate(d.hooks):
         if per_state:
@@ -134,6 +245,32 @@ def gen_shim(acc):
         else:
             o.append("  out64((long long)ST->c.%s);" % nm)
     o.append("}")
+    # normalised snapshot (representation independent): ints as i64, buffers as length + bytes
+    o.append("static void snapn(void){")
+    for nm, out in spec.items():
+        if out.type == T.STR:
+            o.append("  { out32((int)ST->%s_counter); if (ST->%s_counter) { if (ST->c.%s) outb(ST->c.%s, ST->%s_counter); else out8(0xEE); } }" % (nm, nm, nm, nm, nm))
+        elif out.type == T.RAW:
+            o.append("  { out32((int)ST->%s_counter); outb(&ST->c.%s, ST->%s_counter <= sizeof(ST->c.%s) ? ST->%s_counter : sizeof(ST->c.%s)); }" % (nm, nm, nm, nm, nm, nm))
+        else:
+            o.append("  out64((long long)ST->c.%s);" % nm)
+    o.append("}")
+    # invariants checked after every feed call: counter <= capacity, terminator present, sentinels intact
+    o.append("static int inv(void){")
+    k = 1
+    for nm, out in spec.items():
+        if out.type == T.STR:
+            o.append("  if (ST->%s_counter > %d) return %d;" % (nm, out.effective_string_size(), k))
+            if out.str_null:
+                o.append("  if (ST->c.%s && ST->%s_counter <= %d && ((unsigned char*)ST->c.%s)[ST->%s_counter] != 0 && ST->%s_counter > 0) return %d;" % (nm, nm, out.effective_string_size(), nm, nm, nm, k + 1))
+            if dyn:
+                o.append("  if (!ST->c.%s && ST->%s_counter > 0) return %d;" % (nm, nm, k + 2))
+        elif out.type == T.RAW:
+            o.append("  if (ST->%s_counter > sizeof(ST->c.%s)) return %d;" % (nm, nm, k))
+        k += 3
+    for nm, val in (sentinels or {}).items():
+        o.append("  if ((long long)ST->c.%s != %dLL) return %d;" % (nm, val, 100 + list(spec).index(nm)))
+    o.append("  return 0; }")
     o.append("static void shim_set_int(unsigned i, long long v){ switch(i){")
     for i, (nm, out) in enumerate(spec.items()):
         if out.type in (T.INT, T.BOOL):
@@ -181,7 +318,7 @@ class BuildError(Exception):
 class CProg:
     """a built executable for one accepted program (acc must have been compiled with the flags still loaded)"""
 
-    def __init__(self, acc, flavor="gcc0", keep=False):
+    def __init__(self, acc, flavor="gcc0", keep=False, sentinels=None):
         self.acc = acc
         self.name = acc.name
         self.spec = acc.dctx.state_object_spec
@@ -201,7 +338,7 @@ class CProg:
             with open(os.path.join(self.dir, self.name + ".c"), "w") as f:
                 f.write(acc.source)
             with open(os.path.join(self.dir, "shim.c"), "w") as f:
-                f.write(gen_shim(acc))
+                f.write(gen_shim(acc, sentinels))
             self.exe = os.path.join(self.dir, "prog")
             r = subprocess.run(FLAVORS[flavor] + ["-o", self.exe, self.name + ".c", "shim.c"], cwd=self.dir,
                                capture_output=True, text=True)
@@ -253,6 +390,60 @@ class CProg:
 
     def op_free(self):
         return b"R"
+
+    def op_witness(self, data, do_end=False):
+        data = bytes(data)[:30]
+        return b"W" + bytes([len(data), 1 if do_end else 0]) + data
+
+    def op_exhaust(self, L, reps, do_end=False, digest=False):
+        return (b"G" if digest else b"X") + bytes([L, len(reps)]) + bytes(reps) + bytes([1 if do_end else 0])
+
+    def parse_trace(self, raw):
+        """records of a chunk-independent trace produced by run_one (normalised snapshots)"""
+        out = []
+        pos = 0
+        while pos < len(raw):
+            k = raw[pos:pos + 1]
+            if k == b"S":
+                out.append(("start", self.code(raw[pos + 1]))); pos += 2
+            elif k == b"H":
+                idx, inval, off = struct.unpack_from("<BBi", raw, pos + 1)
+                d, pos = self._snapn(raw, pos + 7)
+                out.append(("hook", self.hooks[idx], inval, off, d))
+            elif k == b"Y":
+                c, off = struct.unpack_from("<Bi", raw, pos + 1)
+                out.append(("yield", self.code(c), off)); pos += 6
+            elif k == b"T":
+                c, off = struct.unpack_from("<Bi", raw, pos + 1)
+                out.append(("result", self.code(c), off)); pos += 6
+            elif k == b"E":
+                out.append(("end", self.code(raw[pos + 1]))); pos += 2
+            elif k == b"V":
+                out.append(("invariant", raw[pos + 1])); pos += 2
+            elif k == b"L":
+                out.append(("livelock",)); pos += 1
+            elif k == b"N":
+                d, pos = self._snapn(raw, pos + 5)
+                out.append(("final", d))
+            else:
+                out.append(("?", raw[pos:pos + 8].hex())); break
+        return out
+
+    def _snapn(self, raw, pos):
+        d = {}
+        for nm, o in self.spec.items():
+            if o.type in (T.STR, T.RAW):
+                n = struct.unpack_from("<i", raw, pos)[0]
+                pos += 4
+                if o.type == T.STR and n and raw[pos] == 0xEE and False:
+                    d[nm] = None
+                m = min(max(n, 0), RAW_SIZE(o)) if o.type == T.RAW else max(n, 0)
+                d[nm] = (n, bytes(raw[pos:pos + m]))
+                pos += m
+            else:
+                d[nm] = struct.unpack_from("<q", raw, pos)[0]
+                pos += 8
+        return d, pos
 
     # ---- running
     def run(self, script, timeout=20, env=None):
@@ -328,6 +519,32 @@ class CProg:
                 elif k == b"R":
                     recs.append(("R",))
                     pos += 1
+                elif k == b"W":
+                    ns, nd, bm = struct.unpack_from("<qqi", raw, pos + 1)
+                    recs.append(("W", dict(schedules=ns, diffs=nd, mask=bm)))
+                    pos += 21
+                elif k in (b"X", b"G"):
+                    nstr, nsched, nfeed, ndiff, ninv = struct.unpack_from("<qqqqq", raw, pos + 1)
+                    n = struct.unpack_from("<i", raw, pos + 41)[0]
+                    body = bytes(raw[pos + 45:pos + 45 + n])
+                    pos += 45 + n
+                    rec = dict(strings=nstr, schedules=nsched, feeds=nfeed, diffs=ndiff, invariant_hits=ninv)
+                    if k == b"G":
+                        rec["digests"] = [struct.unpack_from("<Q", body, i)[0] for i in range(0, len(body), 8)]
+                    else:
+                        ds = []
+                        bp = 0
+                        while bp < len(body) and body[bp:bp + 1] == b"D":
+                            ln = body[bp + 1]
+                            sbytes = body[bp + 2:bp + 2 + ln]
+                            mask, rn = struct.unpack_from("<ii", body, bp + 2 + ln)
+                            rt = body[bp + 10 + ln:bp + 10 + ln + rn]
+                            tn = struct.unpack_from("<i", body, bp + 10 + ln + rn)[0]
+                            tt = body[bp + 14 + ln + rn:bp + 14 + ln + rn + tn]
+                            bp += 14 + ln + rn + tn
+                            ds.append(dict(input=sbytes, mask=mask, one_chunk=self.parse_trace(rt), chunked=self.parse_trace(tt)))
+                        rec["diff_details"] = ds
+                    recs.append((k.decode(), rec))
                 else:
                     raise ValueError("bad record %r at %d" % (k, pos))
         except (struct.error, IndexError):
